@@ -200,6 +200,7 @@ type sut struct {
 	calls  []call
 	writes []string
 	plan   plan
+	sig    string
 }
 
 var podGR = schema.GroupResource{Resource: "pods"}
@@ -302,12 +303,25 @@ var theNode = &corev1.Node{ObjectMeta: metav1.ObjectMeta{Name: nodeName}, Spec: 
 
 // install puts the given pods (and the node) behind the client the queue and terminator use.
 func (s *sut) install(pods []*podSpec) {
+	s.calls, s.writes = nil, nil
+	// every write is intercepted and never forwarded, so a client is immutable and can be reused while the
+	// world is unchanged
+	sort.Slice(pods, func(i, j int) bool { return pods[i].Name < pods[j].Name })
+	var sig strings.Builder
+	for _, p := range pods {
+		sig.WriteString(toModel(mkPod(p)))
+		sig.WriteString(string(p.Phase))
+		sig.WriteByte(';')
+	}
+	if s.sig == sig.String() && s.sw.Client != nil {
+		return
+	}
+	s.sig = sig.String()
 	objs := []client.Object{theNode.DeepCopy()}
 	for _, p := range pods {
 		objs = append(objs, mkPod(p))
 	}
 	s.sw.Client = kit.NewClient(s.funcs(), objs...)
-	s.calls, s.writes = nil, nil
 }
 
 func (s *sut) listed(ctx context.Context) []*corev1.Pod {
@@ -1072,7 +1086,7 @@ func main() {
 	dlSub := i64(120*sec + 400_000_000)
 	nHist, histLen := 900, 10
 	if c.Thorough() {
-		nHist, histLen = 12000, 14
+		nHist, histLen = 10000, 14
 	}
 	// (A) grid: every pod variant alone, every clock position, with and without a node deadline
 	for _, v := range variants {
@@ -1121,7 +1135,7 @@ func main() {
 	for i := 0; i < nHist; i++ {
 		runHistory(c, c.Rand.Range(4, histLen))
 	}
-	c.Meta.Rule = fmt.Sprintf("grid: %d pod variants x %d clock positions x {deadline, no deadline, sub-second deadline}, each Drain;Reconcile;Drain;Reconcile with two API answers; %d^2 two-pod tier grids; %d random histories (length 4..%d) over Drain / Reconcile / clock advance to the nearest thresholds +-1ns / environment changes / restart / list failure / deadline change. non-trivial = a history with at least one drain pass and one evict/delete call; distinct by op summary",
+	c.Meta.Rule = fmt.Sprintf("grid: %d pod variants x %d clock positions x {deadline, no deadline, sub-second deadline, deadline +-1ns around the deletion time}, each Drain;Reconcile;Drain;Reconcile with two API answers; %d^2 two-pod tier grids (thorough: all variant pairs); %d random histories (length 4..%d) over Drain / Reconcile / clock advance to the nearest thresholds +-1ns / environment changes / restart / list failure / deadline change. non-trivial = a history with at least one drain pass and one evict/delete call; distinct by op summary",
 		len(variants), len(gridNow), len(tierVs), nHist, histLen)
 	c.Meta.Exhaustive = false
 	c.Meta.Corr = []string{
